@@ -1,13 +1,80 @@
 (* C02 -- the Elias-Fano sparse vector answers every query exactly (set semantics).
-   Only property theorems here: statement, [exact lemma], Print Assumptions. *)
+   Only property theorems here: statement, [exact lemma], Print Assumptions.
+
+   Reading guide.
+   * [sv_build_set sp md w' n P] is the model of SparseBuilder::new(n, |P|), try_set for every element of P,
+     SparseVector::try_from. [w'] stands for the result of the f64 expression in get_params (an oracle: every
+     value 1..63 is covered); [eff_width w' n m] is the width get_params then uses (w' if 0 < m <= n, else 1).
+   * The embedded plain bitvector and IntVector enter through two contracts (Proofs/SparseBuild.v):
+     [high_contract sp md]: BitVector::from(raw) followed by enable_select and enable_select_zero succeeds and
+     the result answers get / select / select_zero as the bit list stored in raw (this is C01);
+     [low_contract]: IntVector::with_len / set / get behave as a sequence of w-bit values (this is C05).
+   * [m + buckets < 2^64]: the high part is addressable (SparseBuilder computes ones + buckets in usize). *)
 From Coq Require Import NArith List Bool.
 Require Import SDS.Model.Mach SDS.Model.Bits SDS.Model.Raw SDS.Model.IntVec SDS.Model.BitVec SDS.Model.Sparse.
-Require Import SDS.Spec.BitSeq SDS.Spec.ValSeq SDS.Proofs.BVCommon SDS.Proofs.SparseProof.
+Require Import SDS.Spec.BitSeq SDS.Spec.ValSeq SDS.Proofs.BVCommon SDS.Proofs.SparseSeq SDS.Proofs.SparseProof.
+Require Import SDS.Proofs.SparseBuild SDS.Proofs.SparseMain.
 Import ListNotations.
 Open Scope N_scope.
 
-(* the number of buckets is ceil(n / 2^w) for every admissible low width *)
+(* the number of buckets is ceil(n / 2^w) for every admissible low width; width 64 (never chosen) gives one bucket,
+   anything wider is rejected by the bounds-checked mask table *)
 Theorem C02_buckets : forall universe w,
   1 <= w <= 63 -> get_buckets universe w = Ok ((universe + 2 ^ w - 1) / 2 ^ w).
 Proof. exact get_buckets_spec. Qed.
 Print Assumptions C02_buckets.
+Theorem C02_buckets_64 : forall universe,
+  universe < 2 ^ 64 -> get_buckets universe 64 = Ok (if universe =? 0 then 0 else 1).
+Proof. exact get_buckets_64. Qed.
+
+(* Main theorem. For every universe size, every strictly increasing position list below it, every width the rule
+   can produce, both select implementations and both overflow modes: the builder accepts the list; the high
+   part H is the unary bucket code with exactly ceil(n / 2^w) unset bits (the i-th set bit of H is at
+   (P[i] >> w) + i, the k-th unset bit at k + |{p : p >> w <= k}|); and every query returns the defined answer:
+   get below n; rank, rank_zero, select, select_zero, predecessor, successor for EVERY argument. *)
+Theorem C02_sparse_exact : forall sp md w' n P,
+  high_contract sp md -> low_contract ->
+  n < 2 ^ 64 -> 1 <= w' <= 63 -> increasing P = true -> all_below n P = true ->
+  lenN P + buckets_of n (eff_width w' n (lenN P)) < 2 ^ 64 ->
+  exists sv H,
+    sv_build_set sp md w' n P = Ok (inl sv) /\
+    (let w := eff_width w' n (lenN P) in
+     bv_select_ok sp md (sv_high sv) H /\
+     lenB H = lenN P + (n + 2 ^ w - 1) / 2 ^ w /\
+     (forall i, i < lenN P -> select1 H i = Some (nthd P i / 2 ^ w + i)) /\
+     (forall b, b < (n + 2 ^ w - 1) / 2 ^ w -> select0 H b = Some (b + vs_rank P ((b + 1) * 2 ^ w)))) /\
+    (sv_len sv = n /\ sv_count_ones sv = lenN P /\ sv_count_zeros sv = n - lenN P /\
+     (forall i, i < n -> sv_get sp md sv i = Ok (vs_get P i)) /\
+     (forall i, sv_rank sp md sv i = Ok (vs_rank P i)) /\
+     (forall r, sv_select sp md sv r = Ok (vs_select P r)) /\
+     (forall v, it_first md sv (sv_predecessor sp md sv v) = Ok (hd_error (vs_pred P v))) /\
+     (forall v, it_first md sv (sv_successor sp md sv v) = Ok (hd_error (vs_succ P v)))) /\
+    ((forall i, sv_rank_zero sp md sv i = Ok (i - vs_rank P i)) /\
+     (forall r, n - lenN P <= r -> sv_select_zero sp md sv r = Ok None) /\
+     (forall r, r < n - lenN P -> exists z, sv_select_zero sp md sv r = Ok (Some z) /\
+        z < n /\ vs_get P z = false /\ vs_rank P z + r = z)).
+Proof. exact sparse_set_exact. Qed.
+Print Assumptions C02_sparse_exact.
+
+(* The same answers for ANY vector that represents (n, P) with width w through a bit list H: the statement the
+   builder theorem is composed with, usable for loaded vectors as well. [sv_ok] (Proofs/SparseProof.v) says:
+   n < 2^64, 1 <= w <= 63, P sorted and below n, sv.len = n, H is the unary bucket code of P,
+   bv_select_ok for sv.high and H, low_ok for sv.low and the low parts of P. *)
+Theorem C02_queries_of_representation : forall sp md sv n w P H,
+  sv_ok sp md sv n w P H -> sorted_lt P ->
+  present_queries_ok sp md sv n P /\ zero_queries_ok sp md sv n P.
+Proof. intros sp md sv n w P H Hok Hs. split; [exact (sv_ok_present _ _ _ _ _ _ _ Hok)|exact (sv_ok_zero _ _ _ _ _ _ _ Hok Hs)]. Qed.
+Print Assumptions C02_queries_of_representation.
+
+(* non-vacuity: the documentation example of SparseVector evaluated in the model (width 5 is what the crate chooses) *)
+Example C02_doc_example :
+  match sv_build_set Pdep Debug 5 137 [1; 33; 95; 123] with
+  | Ok (inl sv) =>
+      sv_rank Pdep Debug sv 33 = Ok 1 /\ sv_rank Pdep Debug sv 34 = Ok 2 /\ sv_rank_zero Pdep Debug sv 65 = Ok 63 /\
+      sv_select Pdep Debug sv 1 = Ok (Some 33) /\ sv_select_zero Pdep Debug sv 35 = Ok (Some 37) /\
+      it_first Debug sv (sv_predecessor Pdep Debug sv 2) = Ok (Some (0, 1)) /\
+      it_first Debug sv (sv_successor Pdep Debug sv 124) = Ok None /\
+      sv_get Pdep Debug sv 33 = Ok true /\ sv_count_zeros sv = 133
+  | _ => False
+  end.
+Proof. vm_compute. repeat split. Qed.
